@@ -7,7 +7,11 @@
    t_watches, layers, assertions) are compared after EVERY event. Not compared (depends on the iteration order of
    unordered_set<row*>): the conflict clause and the lemmas of a propagate() that fails -- those, every other recorded
    lemma / conflict and every dumped state are judged by the extracted verified checkers (K2).
-3. independent judge of verdicts: Fourier-Motzkin over Fractions on the asserted atoms at root level.
+3. independent judge of verdicts: Fourier-Motzkin over Fractions on the asserted atoms at root level (plain histories; histories
+   over new_var(lin) slacks with known terms bounded by set_lb / set_ub; conjunctions re-checked after backtracking from the
+   conflicts of literal batches).
+4. evidence: which lemma / conflict branches of lra_constraint.cpp the run reached (read off the trace, and gcov line counts of
+   every `return false` / `th.record` statement on the same script).
 """
 import json
 import os
